@@ -170,9 +170,11 @@ def _gen_world_once(rng, k):
     for ci in range(ncomp):
         name = f'c{ci}'
         kind = 'imp' if rng.random() < K['imp'] else 'aff'
+        if kind == 'imp' and K.get('imp2') and rng.random() < K['imp2']:
+            kind = 'imp2'       # implicit component with two states, the second residual reads the first state
         comp = {'name': name, 'kind': kind, 'group': assign[ci], 'prom': rng.random() < K['promote'],
                 'outs': [], 'ins': [], 'A': {}, 'b': {}, 'fmt': {}, 'mf': False}
-        nout = 1 if kind == 'imp' else (2 if rng.random() < K['two_outs'] else 1)
+        nout = 1 if kind == 'imp' else (2 if kind == 'imp2' or rng.random() < K['two_outs'] else 1)
         for j in range(nout):
             shape = rng.choice(K['shapes'])
             o = {'name': f'{name}_y{j}', 'shape': shape, 'units': _pick_unit(rng, K)}
@@ -183,7 +185,7 @@ def _gen_world_once(rng, k):
                 o['lower'] = -1e3
                 o['upper'] = 1e3
             comp['outs'].append(o)
-        nin = rng.randint(1, 2)
+        nin = rng.randint(2, 3) if kind == 'imp2' else rng.randint(1, 2)
         for j in range(nin):
             prev_outs = [(c, o) for c in comps for o in c['outs']]
             use_auto = rng.random() < K['auto_ivc']
@@ -412,6 +414,32 @@ def _fill_math(rng, comp, K):
             A_ = comp['A'][of_][wrt_]
             comp['A'][of_][wrt_] = [[0.0] * len(A_[0]) for _ in A_]
             comp.setdefault('undeclared', []).append(of_ + '|' + wrt_)
+    if comp['kind'] == 'imp2':
+        # R1 = D1 u1 - sum(A x | x feeds R1) - b1 ;  R2 = D2 u2 - C u1 - sum(A x | x feeds R2) - b2
+        o1, o2 = comp['outs']
+        feeds = {}
+        for j, inp in enumerate(comp['ins']):
+            feeds[inp['name']] = j if j < 2 else rng.choice([0, 1, 2])    # 2: both residuals
+        comp['feeds'] = feeds
+        comp['D'] = {}
+        for j, o in enumerate(comp['outs']):
+            m = int(np.prod(o['shape']))
+            for inp in comp['ins']:
+                if feeds[inp['name']] not in (j, 2):
+                    A_ = comp['A'][o['name']][inp['name']]
+                    comp['A'][o['name']][inp['name']] = [[0.0] * len(A_[0]) for _ in A_]
+                    comp.setdefault('undeclared', []).append(o['name'] + '|' + inp['name'])
+                elif comp['fmt'][o['name'] + '|' + inp['name']] in SPARSE_CP:
+                    comp['fmt'][o['name'] + '|' + inp['name']] = 'coo_cp'
+            comp['D'][o['name']] = [[(nz_dyadic(rng, 2, 4, 2) * rng.choice([1, -1]) if r == c else
+                                      dyadic(rng, -1, 1, 4) * 0.5) for c in range(m)] for r in range(m)]
+            comp['fmt'][o['name'] + '|' + o['name']] = rng.choice(['dense', 'coo', 'csr'])
+        m1, m2 = int(np.prod(o1['shape'])), int(np.prod(o2['shape']))
+        C = mat(rng, m2, m1, sparse=0.2)
+        if not any(v for row in C for v in row):
+            C[0][0] = 1.0
+        comp['C'] = C
+        comp['fmt'][o2['name'] + '|' + o1['name']] = rng.choice(['dense', 'coo', 'csr', 'dense_cp', 'coo_cp'])
     if comp['kind'] == 'imp':
         o = comp['outs'][0]
         m = int(np.prod(o['shape']))
